@@ -17,6 +17,7 @@ use join::*;
 use vexec::harness::{AProg, gated, gated_r, gated2, gvia};
 use vexec::gate;
 fn after<T>(_: (), v: T) -> T { v }
+fn opnd<T>(site: &'static str, ps: usize, v: T) -> T { let v = lg(site, v); maybe_panic(ps); v }
 use vexec::Root;
 use futures::future::ready;
 """
